@@ -5,7 +5,9 @@
 package raft
 
 import (
+	"bytes"
 	"fmt"
+	"hash/crc32"
 	"os"
 	"testing"
 
@@ -42,5 +44,94 @@ func TestVerifC06Cache(t *testing.T) {
 		r := c06.NewRunner(cfg, fix, base, id, rng, tr)
 		r.Run(rng.Range(5, 30), baseID)
 		vw.Stat(fmt.Sprintf("cases.cache.mode%d", cfg.Mode), 1)
+	}
+	verifEntryCodec(root, tr)
+}
+
+var c06Castagnoli = crc32.MakeTable(crc32.Castagnoli)
+
+func c06EntryObs(e Entry, err error) []int64 {
+	rc := int64(0)
+	switch err {
+	case nil:
+	case errBadEntryFormat:
+		rc = 1
+	case errCorruptedEntry:
+		rc = 2
+	default:
+		rc = 3
+	}
+	return []int64{rc, int64(e.Type), int64(e.Term >> 32), int64(e.Term & 0xffffffff), int64(len(e.Cmd)),
+		int64(crc32.Checksum(e.Cmd, c06Castagnoli))}
+}
+
+// verifEntryCodec: raft/log.go serializeEntry / deserializeEntry against the model (ops 8 and 9) and the
+// round-trip monitor.
+func verifEntryCodec(root *vw.Rng, tr *vw.Trace) {
+	n := vw.Scale(40, 2000)
+	terms := []uint64{0, 1, 127, 128, 129, 16383, 16384, 1<<21 - 1, 1 << 21, 1<<28 - 1, 1 << 35, 1<<56 - 1, 1 << 56, 1<<63 - 1, 1 << 63, 1<<64 - 1}
+	for i := 0; i < n; i++ {
+		id := fmt.Sprintf("e%d", i)
+		rng := root.Fork(uint64(1000000 + i))
+		if !vw.CaseSelected(id) {
+			continue
+		}
+		tr.Case(id)
+		for k := 0; k < 12; k++ {
+			term := terms[rng.Intn(len(terms))]
+			if rng.Chance(1, 3) {
+				term = rng.U64() >> uint(rng.Intn(64))
+			}
+			ty := uint8(rng.Intn(256))
+			cmd := make([]byte, rng.PickInt(0, 0, 1, 2, 5, 17, 100))
+			vw.Fill(cmd, rng.U64(), 0)
+			e := Entry{Type: ty, Term: term, Cmd: cmd}
+			b, serr := serializeEntry(e)
+			if serr != nil {
+				vw.Report(vw.Violation{Property: "C06", Signature: "entry-serialize-error", What: "serializeEntry returned an error", Case: id})
+				continue
+			}
+			e2, derr := deserializeEntry(b)
+			var o vw.L
+			o.Add(8, int64(ty), int64(term>>32), int64(term&0xffffffff))
+			o.Add(vw.RLE(cmd)...)
+			tr.Op(o...)
+			var l vw.L
+			l.Add(int64(len(b)), int64(crc32.Checksum(b, c06Castagnoli)))
+			l.Add(c06EntryObs(e2, derr)...)
+			tr.Obs(l...)
+			if derr != nil || e2.Type != ty || e2.Term != term || !bytes.Equal(e2.Cmd, cmd) {
+				vw.Report(vw.Violation{Property: "C06", Signature: "entry-roundtrip", What: "deserializeEntry(serializeEntry(e)) differs from e",
+					Case: id, Detail: map[string]interface{}{"type": ty, "term": term, "cmdlen": len(cmd)}})
+			}
+			vw.Stat("entry.roundtrip", 1)
+			// damaged encodings: decoding must agree with the model (error class, never a panic)
+			m := append([]byte(nil), b...)
+			switch rng.Intn(5) {
+			case 0:
+				m[0] = byte(rng.Intn(256))
+			case 1:
+				m = m[:2+rng.Intn(len(m)-1)] // cut, possibly inside the varint
+			case 2:
+				m = append([]byte{0x80, ty}, bytes.Repeat([]byte{0xff}, rng.Range(8, 11))...)
+				m = append(m, byte(rng.PickInt(0, 1, 2, 0x7f)))
+				m = append(m, cmd...)
+			case 3:
+				if len(m) > 2 {
+					m[2+rng.Intn(len(m)-2)] ^= byte(1 << uint(rng.Intn(8)))
+				}
+			}
+			if m[0] == 0x80 && len(m) < 2 {
+				m = append(m, ty)
+			}
+			e3, err3 := deserializeEntry(m)
+			var o9 vw.L
+			o9.Add(9)
+			o9.Add(vw.RLE(m)...)
+			tr.Op(o9...)
+			tr.Obs(c06EntryObs(e3, err3)...)
+			vw.Stat("entry.decode", 1)
+		}
+		vw.Stat("cases.entry", 1)
 	}
 }
